@@ -1,6 +1,7 @@
 import Utv.Lemmas.C15Main
 import Utv.Lemmas.C15Names
-import Utv.Lemmas.C15Build5
+import Utv.Lemmas.C15Exact2
+import Utv.Lemmas.C15Wide
 /-!
 C15 — types built from a JSON Schema never crash nor emit what the schema forbids.
 
@@ -35,7 +36,10 @@ theorem sound_json (N : Names) (R : Rx) (hR : ∀ p x, R.full p x = true → R.s
       (fun k ss hm => (sound_members N R hR C hC kvs k (.arr ss) hm).2)
       (fun k ps hm => (sound_members N R hR C hC kvs k (.obj ps) hm).2)
   | .null => fun T j hf => by simp [inFragment] at hf
-  | .bool _ => fun T j hf => by simp [inFragment] at hf
+  | .bool true => fun T j _ _ _ _ => by rw [validate]
+  | .bool false => fun T j _ hp hc _ => by
+      rw [parse] at hp; cases hp
+      simp [Ty.never, conforms, conformsAny] at hc
   | .num _ => fun T j hf => by simp [inFragment] at hf
   | .str _ => fun T j hf => by simp [inFragment] at hf
   | .arr _ => fun T j hf => by simp [inFragment] at hf
@@ -84,9 +88,10 @@ What holds: the same with the decidable hypothesis that no `oneOf` the instance 
 
 theorem C15_sound_partial (N : Names) (R : Rx) (hR : ∀ p x, R.full p x = true → R.search p x = true) (C : Ctx)
     (hC : C.search = R.search) (s : Json) (T : Ty) (j : Json)
-    (hf : inFragment s = true) (hp : parse N s = some T) (hc : conforms R T j = true)
+    (hf : inFragmentW s = true) (hn : KnownDefect.emptyName s = false)
+    (hp : parse N s = some T) (hc : conforms R T j = true)
     (hk : KnownDefect.oneOfOverlap C s j = false) : validate C s j = true :=
-  sound_json N R hR C hC s T j hf hp hc (by simpa [KnownDefect.oneOfOverlap] using hk)
+  sound_json N R hR C hC s T j (narrow_json s hf hn) hp hc (by simpa [KnownDefect.oneOfOverlap] using hk)
 
 /-! schemas without `oneOf`: no hypothesis left -/
 
@@ -272,13 +277,15 @@ end
 /-- for schemas that do not use `oneOf` the property holds as stated -/
 theorem C15_sound_without_oneOf (N : Names) (R : Rx) (hR : ∀ p x, R.full p x = true → R.search p x = true) (C : Ctx)
     (hC : C.search = R.search) (s : Json) (T : Ty) (j : Json)
-    (hf : inFragment s = true) (hfree : oneOfFree s = true) (hp : parse N s = some T) (hc : conforms R T j = true) :
+    (hf : inFragmentW s = true) (hn : KnownDefect.emptyName s = false) (hfree : oneOfFree s = true)
+    (hp : parse N s = some T) (hc : conforms R T j = true) :
     validate C s j = true :=
-  sound_json N R hR C hC s T j hf hp hc (free_json C s hfree j)
+  sound_json N R hR C hC s T j (narrow_json s hf hn) hp hc (free_json C s hfree j)
 
 /-! ### the full statement is false of the parser: a value the built type accepts, the schema forbids -/
 
-def N0 : Names := ⟨fun _ => true, ["items", "keys", "copy"], fun _ => "_1"⟩
+/-- a name environment with Python's suffix `'_' + str(i)` (`pySfx`, injective: `pySfx_inj`) -/
+def N0 : Names := ⟨fun _ => true, ["items", "keys", "copy"], pySfx⟩
 def R0 : Rx := ⟨fun _ _ => true, fun _ _ => true⟩
 def C0 : Ctx := ⟨R0.search, fun _ _ => false⟩
 
@@ -288,9 +295,9 @@ exactly one branch *type*, but both branch *schemas* validate 5 (maxLength says 
 def witnessSchema : Json := .obj [("oneOf", .arr [.obj [("maxLength", .num ⟨2, 0⟩)], .obj [("type", .str "integer")]])]
 
 theorem C15_oneof_overlap_witness :
-    ∃ T, inFragment witnessSchema = true ∧ parse N0 witnessSchema = some T ∧ conforms R0 T (.num ⟨5, 0⟩) = true ∧
+    ∃ T, inFragmentW witnessSchema = true ∧ KnownDefect.emptyName witnessSchema = false ∧ parse N0 witnessSchema = some T ∧ conforms R0 T (.num ⟨5, 0⟩) = true ∧
       validate C0 witnessSchema (.num ⟨5, 0⟩) = false ∧ KnownDefect.oneOfOverlap C0 witnessSchema (.num ⟨5, 0⟩) = true :=
-  ⟨.logic .one [.rule (.prim .str) [("max_length", .num ⟨2, 0⟩)], .prim .int], by decide, rfl, by decide, by decide, by decide⟩
+  ⟨.logic .one [.rule (.prim .str) [("max_length", .num ⟨2, 0⟩)], .prim .int], by decide, by decide, rfl, by decide, by decide, by decide⟩
 
 /-! ### the hypotheses are satisfiable, and the validator tells instances apart -/
 
@@ -309,9 +316,10 @@ def sampleSchema : Json :=
 def sampleValue : Json :=
   .obj [("items", .arr [.num ⟨3, 0⟩]), ("a-b", .str "abc"), ("k", .str "y"), ("z", .bool true)]
 
-example : ∃ T, inFragment sampleSchema = true ∧ parse N0 sampleSchema = some T ∧ conforms R0 T sampleValue = true ∧
+example : ∃ T, inFragmentW sampleSchema = true ∧ KnownDefect.emptyName sampleSchema = false ∧
+    parse N0 sampleSchema = some T ∧ conforms R0 T sampleValue = true ∧
     KnownDefect.oneOfOverlap C0 sampleSchema sampleValue = false ∧ oneOfFree sampleSchema = false := by
-  refine ⟨_, by decide, rfl, by decide, by decide, by decide⟩
+  refine ⟨_, by decide, by decide, rfl, by decide, by decide, by decide⟩
 
 /-- the conclusion is not trivial: the same schema rejects a value whose tuple item is below the minimum -/
 example : validate C0 sampleSchema sampleValue = true ∧
@@ -345,33 +353,48 @@ theorem C15_contract_maxprops_witness :
     KnownDefect.maxPropsZero (.data [.mk "a" "a" .any false []] .free .any none (some ⟨0, 0⟩)) = true := by
   refine ⟨by decide, by decide⟩
 
+/-- `empty-property-name`: `{"type":"object","properties":{"":{"type":"integer"}}}` is in the (wide) fragment; the
+real class returns `{"": "x"}` (the member is additional: `Field(alias='')` is no alias), which neither conforms
+to the class the parser means nor validates -/
+theorem C15_contract_emptyname_witness :
+    inFragmentW (.obj [("type", .str "object"), ("properties", .obj [("", .obj [("type", .str "integer")])])]) = true ∧
+    KnownDefect.emptyName (.obj [("type", .str "object"), ("properties", .obj [("", .obj [("type", .str "integer")])])]) = true ∧
+    (parse N0 (.obj [("type", .str "object"), ("properties", .obj [("", .obj [("type", .str "integer")])])])).map
+      (fun T => conforms R0 T (.obj [("", .str "x")])) = some false ∧
+    validate C0 (.obj [("type", .str "object"), ("properties", .obj [("", .obj [("type", .str "integer")])])])
+      (.obj [("", .str "x")]) = false := by
+  refine ⟨by decide, by decide, by decide, by decide⟩
+
 /-! ### building succeeds
 
 Full statement (false of `Rule` as it stands, see `C15_degenerate_witness`):
 
     theorem C15_builds : inFragment s → (parse N s).isSome
 
-What holds: the same outside the decidable predicate `KnownDefect.degenerate` — the constraint sets `Rule` refuses to
-declare (an inclusive next to an exclusive bound, lower ≥ upper, int next to float bound, a float bound on a Decimal,
-an upper size bound of 0 or below the lower one, a closed tuple with its own size bounds, a const that is not an
-instance of the class built for the type). -/
+What holds, exactly: a schema of the fragment builds iff it is not `KnownDefect.degenerate` — iff no `Rule` the parser
+declares for a schema object it reaches is refused by `Rule`'s declaration checks (an inclusive next to an exclusive
+bound, lower ≥ upper, an int next to a float bound, two exclusive integer bounds with no two integers between them, a
+float bound on a Decimal, an upper size bound of 0 or below the lower one or not written as an integer, more items
+required than a closed tuple has, a const that is not an instance of the class built for the type).  Nothing else —
+not the member types, not the property names, not the combinators — can make a build raise. -/
 
 /-- the induction hypotheses a member value carries for building -/
 def DeepBuilds (N : Names) (v : Json) : Prop :=
-  SubBuilds N v ∧ (match v with
-    | .arr ss => ∀ s ∈ ss, SubBuilds N s
-    | .obj ps => ∀ p ∈ ps, SubBuilds N p.2
+  BuildsIff N v ∧ (match v with
+    | .arr ss => ∀ s ∈ ss, BuildsIff N s
+    | .obj ps => ∀ p ∈ ps, BuildsIff N p.2
     | _ => True)
 
 mutual
-theorem builds_json (N : Names) : (s : Json) → SubBuilds N s
+theorem builds_json (N : Names) : (s : Json) → BuildsIff N s
   | .obj kvs =>
-    obj_builds N kvs
+    obj_builds_iff N kvs
       (fun k v hm => (builds_members N kvs k v hm).1)
       (fun k ss hm => (builds_members N kvs k (.arr ss) hm).2)
       (fun k ps hm => (builds_members N kvs k (.obj ps) hm).2)
+  | .bool true => fun _ => by rw [parse, KnownDefect.degenerate]; simp; intro ps h; cases h
+  | .bool false => fun _ => by rw [parse, KnownDefect.degenerate]; simp; intro ps h; cases h
   | .null => fun hf => by simp [inFragment] at hf
-  | .bool _ => fun hf => by simp [inFragment] at hf
   | .num _ => fun hf => by simp [inFragment] at hf
   | .str _ => fun hf => by simp [inFragment] at hf
   | .arr _ => fun hf => by simp [inFragment] at hf
@@ -391,14 +414,14 @@ theorem builds_members (N : Names) : (kws : List (String × Json)) → ∀ k v, 
           | .str _ => trivial⟩)
       (fun h => builds_members N rest k v h)
 termination_by structural kws => kws
-theorem builds_list (N : Names) : (ss : List Json) → ∀ s ∈ ss, SubBuilds N s
+theorem builds_list (N : Names) : (ss : List Json) → ∀ s ∈ ss, BuildsIff N s
   | [], s, hm => by simp at hm
   | s' :: rest, s, hm =>
     (List.mem_cons.mp hm).elim
       (fun h => h ▸ builds_json N s')
       (fun h => builds_list N rest s h)
 termination_by structural ss => ss
-theorem builds_props (N : Names) : (ps : List (String × Json)) → ∀ p ∈ ps, SubBuilds N p.2
+theorem builds_props (N : Names) : (ps : List (String × Json)) → ∀ p ∈ ps, BuildsIff N p.2
   | [], p, hm => by simp at hm
   | (n, s') :: rest, p, hm =>
     (List.mem_cons.mp hm).elim
@@ -407,20 +430,34 @@ theorem builds_props (N : Names) : (ps : List (String × Json)) → ∀ p ∈ ps
 termination_by structural ps => ps
 end
 
-theorem C15_builds_partial (N : Names) (s : Json) (hf : inFragment s = true) (hk : KnownDefect.degenerate s = false) :
-    (parse N s).isSome = true :=
-  builds_json N s hf hk
+/-- building succeeds exactly on the schemas no reachable part of which `Rule` refuses to declare -/
+theorem C15_builds_iff (N : Names) (s : Json) (hf : inFragmentW s = true) (hn : KnownDefect.emptyName s = false) :
+    (parse N s).isSome = true ↔ KnownDefect.degenerate s = false :=
+  builds_json N s (narrow_json s hf hn)
+
+theorem C15_builds_partial (N : Names) (s : Json) (hf : inFragmentW s = true) (hn : KnownDefect.emptyName s = false)
+    (hk : KnownDefect.degenerate s = false) : (parse N s).isSome = true :=
+  (C15_builds_iff N s hf hn).mpr hk
 
 /-- `{"type": "integer", "minimum": 3, "maximum": 3}` — satisfiable (by 3), in the fragment, and `Rule` refuses it
 ("lt/le must > gt/ge") -/
 theorem C15_degenerate_witness :
-    inFragment (.obj [("type", .str "integer"), ("minimum", .num ⟨3, 0⟩), ("maximum", .num ⟨3, 0⟩)]) = true ∧
+    inFragmentW (.obj [("type", .str "integer"), ("minimum", .num ⟨3, 0⟩), ("maximum", .num ⟨3, 0⟩)]) = true ∧
     parse N0 (.obj [("type", .str "integer"), ("minimum", .num ⟨3, 0⟩), ("maximum", .num ⟨3, 0⟩)]) = none ∧
     validate C0 (.obj [("type", .str "integer"), ("minimum", .num ⟨3, 0⟩), ("maximum", .num ⟨3, 0⟩)]) (.num ⟨3, 0⟩) = true ∧
     KnownDefect.degenerate (.obj [("type", .str "integer"), ("minimum", .num ⟨3, 0⟩), ("maximum", .num ⟨3, 0⟩)]) = true := by
   refine ⟨by decide, rfl, by decide, by decide⟩
 
-example : KnownDefect.degenerate sampleSchema = false := by decide
+/-- `degenerate` is no wider than what `Rule` refuses: adjacent integer bounds, bounds on a string, a zero
+`maxLength` on an integer, `minProperties` above `maxProperties` on a class all build, and are not degenerate -/
+example : KnownDefect.degenerate sampleSchema = false ∧
+    KnownDefect.degenerate (.obj [("type", .str "integer"), ("minimum", .num ⟨0, 0⟩), ("maximum", .num ⟨1, 0⟩)]) = false ∧
+    KnownDefect.degenerate (.obj [("type", .str "string"), ("minimum", .num ⟨3, 0⟩), ("maximum", .num ⟨3, 0⟩)]) = false ∧
+    KnownDefect.degenerate (.obj [("type", .str "integer"), ("maxLength", .num ⟨0, 0⟩)]) = false ∧
+    KnownDefect.degenerate (.obj [("type", .str "object"), ("properties", .obj [("a", .obj [])]),
+      ("minProperties", .num ⟨2, 0⟩), ("maxProperties", .num ⟨1, 0⟩)]) = false ∧
+    KnownDefect.degenerate (.obj [("type", .str "string"), ("items", .obj [("minimum", .num ⟨3, 0⟩), ("maximum", .num ⟨3, 0⟩)])]) = false := by
+  refine ⟨by decide, by decide, by decide, by decide, by decide, by decide⟩
 
 /-! ### attribute names -/
 
@@ -456,5 +493,43 @@ theorem C15_attname_not_other_key (N : Names) (hinj : ∀ o a b, o ++ N.sfx a = 
   apply attnameFor_fresh N hinj taken allKeys key
   rw [h]
   simp [ho, hne]
+
+/-- the hypothesis of the two theorems above is met by Python's own suffix (and by `N0`) -/
+theorem C15_class_attributes_py (N : Names) (hs : N.sfx = pySfx) (kvs : Obj) (props : List (String × Ty)) (addK : AddK)
+    (addTy : Ty) :
+    (fieldAttrs (objectClass N kvs props addK addTy)).Nodup ∧
+    ∀ a ∈ fieldAttrs (objectClass N kvs props addK addTy), a ∉ N.reserved :=
+  C15_class_attributes N (by rw [hs]; exact pySfx_inj) kvs props addK addTy
+
+example : ∀ o a b, o ++ N0.sfx a = o ++ N0.sfx b → a = b := pySfx_inj
+
+/-- the attribute chosen for a property is an attribute name: either the property's own name, which then passes
+Python's own test (`str.isidentifier`, no keyword) and does not start with `_`, or a generated one, which is an ASCII
+identifier starting with a letter and no keyword — whatever the name was (`"1x"`, `"a-b"`, `"_a"`, `"class"`, `"-"`) -/
+theorem C15_attname_is_attribute (N : Names) (hs : N.sfx = pySfx) (taken allKeys : List String) (key : String) :
+    (attnameFor N taken allKeys key = key ∧ validAttr N key = true ∧ key.startsWith "_" = false) ∨
+    AsciiAttr (attnameFor N taken allKeys key) := by
+  unfold attnameFor
+  simp only
+  by_cases h : (!validAttr N key || key.startsWith "_" ||
+      (taken ++ allKeys.filter (· != key) ++ N.reserved).contains key) = true
+  · right
+    rw [if_pos h, hs]
+    exact getAttname_attr key _
+  · left
+    rw [if_neg h]
+    have h' := (Bool.not_eq_true _).mp h
+    rw [Bool.or_eq_false_iff, Bool.or_eq_false_iff] at h'
+    exact ⟨rfl, by simpa using h'.1.1, h'.1.2⟩
+
+/-- `C15_sound_without_oneOf` is not vacuous: a schema without oneOf, a type, a conforming value -/
+example : ∃ T, inFragmentW (.obj [("type", .str "array"), ("items", .obj [("type", .str "integer"), ("minimum", .num ⟨2, 0⟩)]),
+      ("anyOf", .arr [.obj [("maxItems", .num ⟨2, 0⟩)], .bool false])]) = true ∧
+    oneOfFree (.obj [("type", .str "array"), ("items", .obj [("type", .str "integer"), ("minimum", .num ⟨2, 0⟩)]),
+      ("anyOf", .arr [.obj [("maxItems", .num ⟨2, 0⟩)], .bool false])]) = true ∧
+    parse N0 (.obj [("type", .str "array"), ("items", .obj [("type", .str "integer"), ("minimum", .num ⟨2, 0⟩)]),
+      ("anyOf", .arr [.obj [("maxItems", .num ⟨2, 0⟩)], .bool false])]) = some T ∧
+    conforms R0 T (.arr [.num ⟨3, 0⟩]) = true := by
+  refine ⟨_, by decide, by decide, rfl, by decide⟩
 
 end Utv.C15
